@@ -196,8 +196,64 @@ def subcase_queued_owner_cancelled_then_fresh_call():
             lines.append(('PROBLEM', '[known-subcase program, %s] %s -> %s || observed: %s'
                           % (label, res.describe(), p, res.observed())))
         if known:
-            lines.append(('KNOWN-SUBCASE', '%s [%s] %s -> %s || observed: %s'
+            # repaired by commit 9866b3b (D11): a run in this sub-case is a violation again
+            lines.append(('PROBLEM', '%s [%s] %s -> %s || observed: %s'
                           % (KNOWN_SUBCASES[0]['id'], label, res.describe(), ' | '.join(known), res.observed())))
+    return runs, lines
+
+
+def custom_key_programs():
+    """Explicit key= different from str(arg): the owner of key 'alias' (arg 1) is cancelled while pending, a caller with
+    the default key '1' (same arg) shares the batch; later the custom key must be computed afresh (retention 0) or be
+    served from the retained answer and then afresh after the window."""
+    import asyncio as aio
+    from scenarios import vt
+    from aiuti.asyncio import AsyncBackgroundBatcher
+    lines, runs = [], 0
+    for retention in (0.0, 2.0):
+        for cancel_at in (0.25, 1.25):           # queued / batch running
+            runs += 1
+            seen = []
+
+            async def fn(batch):
+                batch = list(batch)
+                seen.append([k for k, _ in batch])
+                await aio.sleep(0.5)
+                for k, v in batch:
+                    yield k, ('result', k, v, len(seen))
+
+            async def prog():
+                b = AsyncBackgroundBatcher(fn, max_batch_size=8, batch_timeout=1.0, retention_timeout=retention)
+                owner = aio.ensure_future(b(1, key='alias'))
+                plain = aio.ensure_future(b(1))
+                await aio.sleep(cancel_at)
+                owner.cancel()
+                out = {}
+                try:
+                    out['plain'] = await aio.wait_for(plain, 50)
+                except BaseException as e:  # noqa
+                    out['plain'] = 'raised %r' % (e,)
+                await aio.sleep(retention + 3)
+                try:
+                    out['later_alias'] = await aio.wait_for(b(2, key='alias'), 50)
+                except BaseException as e:  # noqa
+                    out['later_alias'] = 'raised %r' % (e,)
+                try:
+                    out['later_plain'] = await aio.wait_for(b(1), 50)
+                except BaseException as e:  # noqa
+                    out['later_plain'] = 'raised %r' % (e,)
+                return out
+            out = vt.run(prog())
+            desc = 'custom key: owner of key=alias (arg 1) cancelled at %s, retention %s' % (cancel_at, retention)
+            if not (isinstance(out['plain'], tuple) and out['plain'][:3] == ('result', '1', 1)):
+                lines.append(('PROBLEM', '%s: the caller of default key \'1\' got %r' % (desc, out['plain'])))
+            la = out['later_alias']
+            if not (isinstance(la, tuple) and la[:3] == ('result', 'alias', 2)):
+                lines.append(('PROBLEM', '%s: a later call b(2, key=alias) after the retention window got %r (batches %r)'
+                              % (desc, la, seen)))
+            lp = out['later_plain']
+            if not (isinstance(lp, tuple) and lp[:3] == ('result', '1', 1) and lp[3] > out['plain'][3] if isinstance(out['plain'], tuple) else False):
+                lines.append(('PROBLEM', '%s: a later call b(1) after the retention window got %r' % (desc, lp)))
     return runs, lines
 
 
@@ -254,9 +310,8 @@ def main(thorough):
                 runs += 1
                 probs, known = examine(res, set(cancels))
                 if known:
-                    known_runs += 1
-                    if known_example is None:
-                        known_example = '%s -> %s' % (res.describe(), known[0])
+                    # the former known sub-case (D11, repaired): counted as a violation
+                    probs = list(probs) + ['[former known sub-case] ' + k for k in known]
                 if probs:
                     failing += 1
                     if failing <= 3:
@@ -266,6 +321,9 @@ def main(thorough):
                         break
     r2, lines = subcase_queued_owner_cancelled_then_fresh_call()
     runs += r2
+    r3, lines3 = custom_key_programs()
+    runs += r3
+    lines += lines3
     for kind, text in lines:
         print('%s: %s' % (kind, text))
         if kind == 'PROBLEM':
